@@ -7,7 +7,7 @@
 //@harness c07_rotate_b0_c5 unwind=14 strength=bounded bound="base=0,count=5; same" timeout=2400 body=body_b0_c5 tier=thorough
 //@harness c07_rotate_b0_c2 unwind=14 strength=bounded bound="base=0,count=2; same" timeout=2400 body=body_b0_c2 tier=thorough
 //@harness c07_rotate_b3_c1 unwind=14 strength=bounded bound="base=3,count=1; same" timeout=2400 body=body_b3_c1 tier=thorough
-//@harness c07_rotate_dirs_b0_c3 unwind=14 strength=bounded bound="base=0,count=3; pattern {}/f (index in a directory component): a move into a directory that was not created is lost as rename(2)+move_file would lose it; every initial directory state" timeout=2400 body=body_dirs_b0_c3 tier=thorough
+//@harness c07_rotate_dirs_b0_c3 unwind=14 strength=bounded bound="base=0,count=3; pattern {}/f (index in a directory component): a move into a directory that was not created is lost as rename(2)+move_file would lose it; every initial directory state" timeout=2400 body=body_dirs_b0_c3
 //@harness c07_move_file strength=complete bound="all outcomes of rename {Ok, NotFound, other} x copy {Ok, Err} x remove_file {Ok, Err} (full outcome space), loop-free" timeout=600 replay=no
 //@harness c07_roll_count0 strength=bounded bound="count == 0, any base, remove_file succeeding (the error path builds an anyhow::Error, which CBMC does not finish)" timeout=600 replay=no
 // rotate(): the real function runs on a model directory. move_file and fs::create_dir_all are replaced by the model
